@@ -113,6 +113,27 @@ def oracle(cases, impl, spec):
     return out
 
 
+def nonstring_oracle(run):
+    """A scale label is a string: a value that is not a string (None, a number, a
+    bool, bytes, a one-element list, an object that merely PRINTS like a label)
+    is not a label of the scale and must be refused like any unknown label."""
+    cases = []
+    for sc, v2l, l2v in SCALES:
+        args = [{"py": "None"}, {"py": "bool", "v": 1}, {"py": "bool", "v": 0}, {"py": "float", "v": 5.0}, 0, 5, 50, 100]
+        for l in SPEC_LABELS[sc]:
+            args += [{"py": "strobj", "s": l}, {"py": "bytes", "s": l}, {"py": "list", "s": l}]
+        for a in args:
+            cases.append({"scale": sc, "fn": l2v, "arg": a})
+    got = common.run_impl("c20_impl", cases, procs=1)
+    run.coverage["nonstring_label_calls"] = len(cases)
+    out = []
+    for c, g in zip(cases, got):
+        if g != "ValueError":
+            out.append(Violation("%s(%r) is not a label of the scale (not a string) but gives %s instead of being refused"
+                                 % (c["fn"], c["arg"], g), {"kind": "nonstring", "case": c, "impl": g}))
+    return out
+
+
 def order_oracle(run, cases, spec):
     """The conversions are functions of their argument: the answers must not
     depend on what was asked before.  The small domain (-5..105 and every
@@ -194,6 +215,7 @@ def check(run):
             run.broken.append(Broken("correspondence", "model evaluation failed", {"error": str(e)[-1500:]}))
     run.violations += oracle(cases, impl, spec)
     run.violations += order_oracle(run, cases, spec)
+    run.violations += nonstring_oracle(run)
     run.coverage["exhaustive"] = True
     run.coverage["trusted_base"] += [
         "translators/tr_scales.py (fail-closed AST translator; validated each run by the sweep above)",
@@ -217,6 +239,14 @@ def replay(payload):
         print("no violation on this input")
         return 0
     c = r["case"]
+    if r.get("kind") == "nonstring":
+        impl = common.run_impl("c20_impl", [c], procs=1)[0]
+        print("replay %s(%r): implementation=%s, a non-string is not a label and must be refused" % (c["fn"], c["arg"], impl))
+        if impl != "ValueError":
+            print("VIOLATION property=C20 replay=(given)")
+            return 1
+        print("no violation on this input")
+        return 0
     impl = common.run_impl("c20_impl", [c], procs=1)[0]
     spec = common.coq_eval_lines("c20r", HEADER_SPEC, [spec_term(c)])[0]
     print("replay %s(%r): implementation=%s specification=%s" % (c["fn"], c["arg"], impl, spec))
